@@ -207,6 +207,189 @@ impl Reader for ModelReader {
         self.len -= buf.len();
         Ok(())
     }
+
+    // ---- derived reads, written out from the DWARF encoding rules instead of inherited from
+    // ---- gimli's default methods, so that the model is independent of the code it judges
+    fn read_u8(&mut self) -> Result<u8> {
+        self.take_uint(1).map(|v| v as u8)
+    }
+    fn read_i8(&mut self) -> Result<i8> {
+        self.take_uint(1).map(|v| v as u8 as i8)
+    }
+    fn read_u16(&mut self) -> Result<u16> {
+        self.take_uint(2).map(|v| v as u16)
+    }
+    fn read_i16(&mut self) -> Result<i16> {
+        self.take_uint(2).map(|v| v as u16 as i16)
+    }
+    fn read_u32(&mut self) -> Result<u32> {
+        self.take_uint(4).map(|v| v as u32)
+    }
+    fn read_i32(&mut self) -> Result<i32> {
+        self.take_uint(4).map(|v| v as u32 as i32)
+    }
+    fn read_u64(&mut self) -> Result<u64> {
+        self.take_uint(8)
+    }
+    fn read_i64(&mut self) -> Result<i64> {
+        self.take_uint(8).map(|v| v as i64)
+    }
+    fn read_f32(&mut self) -> Result<f32> {
+        self.take_uint(4).map(|v| f32::from_bits(v as u32))
+    }
+    fn read_f64(&mut self) -> Result<f64> {
+        self.take_uint(8).map(f64::from_bits)
+    }
+    fn read_u128(&mut self) -> Result<u128> {
+        if self.len < 16 {
+            return Err(self.eof());
+        }
+        let w = self.window()[..16].to_vec();
+        self.start += 16;
+        self.len -= 16;
+        let mut v = 0u128;
+        for i in 0..16 {
+            let b = if is_big(self.endian) { w[i] } else { w[15 - i] };
+            v = (v << 8) | b as u128;
+        }
+        Ok(v)
+    }
+    fn read_uint(&mut self, n: usize) -> Result<u64> {
+        assert!((1..=8).contains(&n));
+        self.take_uint(n)
+    }
+    fn read_null_terminated_slice(&mut self) -> Result<Self> {
+        let idx = match self.window().iter().position(|b| *b == 0) {
+            Some(i) => i,
+            None => return Err(self.eof()),
+        };
+        let head = ModelReader { buf: self.buf.clone(), start: self.start, len: idx, endian: self.endian };
+        self.start += idx + 1;
+        self.len -= idx + 1;
+        Ok(head)
+    }
+    fn skip_leb128(&mut self) -> Result<()> {
+        loop {
+            let b = self.take_uint(1)? as u8;
+            if b & 0x80 == 0 {
+                return Ok(());
+            }
+        }
+    }
+    fn read_uleb128(&mut self) -> Result<u64> {
+        // value = sum of (byte & 0x7f) << 7i; the tenth byte may only contribute bit 63
+        let mut v = 0u64;
+        for i in 0..10u32 {
+            let b = self.take_uint(1)? as u8;
+            if i == 9 && b > 1 {
+                return Err(Error::BadUnsignedLeb128);
+            }
+            v |= ((b & 0x7f) as u64) << (7 * i);
+            if b & 0x80 == 0 {
+                return Ok(v);
+            }
+        }
+        unreachable!("a tenth byte with a continuation bit is > 1")
+    }
+    fn read_uleb128_u32(&mut self) -> Result<u32> {
+        let v = ModelReader::read_uleb128(self)?;
+        u32::try_from(v).map_err(|_| Error::BadUnsignedLeb128)
+    }
+    fn read_uleb128_u16(&mut self) -> Result<u16> {
+        // at most three bytes; the third may only contribute bits 14 and 15
+        let mut v = 0u32;
+        for i in 0..3u32 {
+            let b = self.take_uint(1)? as u8;
+            if i == 2 {
+                if b > 3 {
+                    return Err(Error::BadUnsignedLeb128);
+                }
+                v |= (b as u32) << 14;
+                return Ok(v as u16);
+            }
+            v |= ((b & 0x7f) as u32) << (7 * i);
+            if b & 0x80 == 0 {
+                return Ok(v as u16);
+            }
+        }
+        unreachable!()
+    }
+    fn read_sleb128(&mut self) -> Result<i64> {
+        let mut v = 0i64;
+        let mut shift = 0u32;
+        loop {
+            let b = self.take_uint(1)? as u8;
+            if shift == 63 && b != 0 && b != 0x7f {
+                return Err(Error::BadSignedLeb128);
+            }
+            v |= ((b & 0x7f) as i64) << shift;
+            shift += 7;
+            if b & 0x80 == 0 {
+                if shift < 64 && b & 0x40 != 0 {
+                    v |= -1i64 << shift;
+                }
+                return Ok(v);
+            }
+        }
+    }
+    fn read_initial_length(&mut self) -> Result<(usize, gimli::Format)> {
+        let v = self.take_uint(4)? as u32;
+        if v < 0xffff_fff0 {
+            Ok((v as usize, gimli::Format::Dwarf32))
+        } else if v == 0xffff_ffff {
+            Ok((self.take_uint(8)? as usize, gimli::Format::Dwarf64))
+        } else {
+            Err(Error::UnknownReservedLength(v))
+        }
+    }
+    fn read_address_size(&mut self) -> Result<u8> {
+        let v = self.take_uint(1)? as u8;
+        if matches!(v, 1 | 2 | 4 | 8) {
+            Ok(v)
+        } else {
+            Err(Error::UnsupportedAddressSize(v))
+        }
+    }
+    fn read_address(&mut self, address_size: u8) -> Result<u64> {
+        if !matches!(address_size, 1 | 2 | 4 | 8) {
+            return Err(Error::UnsupportedAddressSize(address_size));
+        }
+        self.take_uint(address_size as usize)
+    }
+    fn read_word(&mut self, format: gimli::Format) -> Result<usize> {
+        self.take_uint(if format == gimli::Format::Dwarf64 { 8 } else { 4 }).map(|v| v as usize)
+    }
+    fn read_length(&mut self, format: gimli::Format) -> Result<usize> {
+        ModelReader::read_word(self, format)
+    }
+    fn read_offset(&mut self, format: gimli::Format) -> Result<usize> {
+        ModelReader::read_word(self, format)
+    }
+    fn read_sized_offset(&mut self, size: u8) -> Result<usize> {
+        if !matches!(size, 1 | 2 | 4 | 8) {
+            return Err(Error::UnsupportedOffsetSize(size));
+        }
+        self.take_uint(size as usize).map(|v| v as usize)
+    }
+}
+
+impl ModelReader {
+    /// The next `n` (1..=8) bytes as an unsigned integer in the reader's byte order; nothing
+    /// is consumed when fewer than `n` bytes remain.
+    fn take_uint(&mut self, n: usize) -> Result<u64> {
+        if n > self.len {
+            return Err(self.eof());
+        }
+        let w = &self.buf[self.start..self.start + n];
+        let mut v = 0u64;
+        for i in 0..n {
+            let b = if is_big(self.endian) { w[i] } else { w[n - 1 - i] };
+            v = (v << 8) | b as u64;
+        }
+        self.start += n;
+        self.len -= n;
+        Ok(v)
+    }
 }
 
 pub fn is_big(e: RunTimeEndian) -> bool {
